@@ -246,69 +246,12 @@ func checkStickyResult(p *Prog, c *Check, cur *Cursor) {
 				c.Unk("R9.2", cons, posOf(p, ret), "decoder without a sequential reader returns "+describeVal(r))
 				continue
 			}
-			// must be the current value of cursor.E
-			isErrLoad := func(v ssa.Value) bool {
-				ld, ok := v.(*ssa.UnOp)
-				if !ok || ld.Op != token.MUL {
-					return false
-				}
-				base, ok := cur.isField(ld.X, cur.E)
-				if !ok {
-					return false
-				}
-				for _, al := range curs {
-					if base == ssa.Value(al) {
-						// current: no write to E between the load and the return
-						if pr.verAt != nil {
-							return pr.loadVer[ld] == pr.verAt(ret, classOf(ld.X))
-						}
-						return true
-					}
-				}
-				return false
+			var bases []ssa.Value
+			for _, al := range curs {
+				bases = append(bases, al)
 			}
-			good := isErrLoad(r)
-			if call, ok := r.(*ssa.Call); ok && !good {
-				// tiny accessor returning the field
-				if sc := call.Call.StaticCallee(); sc != nil && len(sc.Blocks) == 1 && len(call.Call.Args) == 1 {
-					if rr, ok := terminator(sc.Blocks[0]).(*ssa.Return); ok && len(rr.Results) == 1 {
-						if ld, ok := rr.Results[0].(*ssa.UnOp); ok && ld.Op == token.MUL {
-							if base, ok := cur.isField(ld.X, cur.E); ok && base == ssa.Value(sc.Params[0]) {
-								for _, al := range curs {
-									if call.Call.Args[0] == ssa.Value(al) {
-										good = true
-									}
-								}
-							}
-						}
-					}
-				}
-			}
+			good := stickyReturnOK(p, cur, pr, bases, b, ret, 0)
 			_ = reads
-			if !good && isNilConst(r) {
-				// `return nil` where the sticky error is known to be nil: a dominating test of the error, as it still
-				// is at the return (no write to it in between), took the nil edge
-				for _, dc := range domConds(b) {
-					bo, ok := dc.cond.(*ssa.BinOp)
-					if !ok || (bo.Op != token.EQL && bo.Op != token.NEQ) {
-						continue
-					}
-					var other ssa.Value
-					if isNilConst(bo.Y) {
-						other = bo.X
-					} else if isNilConst(bo.X) {
-						other = bo.Y
-					} else {
-						continue
-					}
-					if !isErrLoad(other) {
-						continue
-					}
-					if (bo.Op == token.EQL) == dc.truth {
-						good = true
-					}
-				}
-			}
 			if !good {
 				okAll = false
 				c.Bad("R9.2", cons, posOf(p, ret), "the packet decoder does not return the reader's sticky error (returns "+describeVal(r)+"): a rejection inside a field would be lost")
@@ -642,6 +585,33 @@ func checkPropertyLoop(p *Prog, c *Check, cur *Cursor, scope map[*ssa.Function]b
 		c.Unk("R9.5", "property loop", "-", "no method of the sequential reader takes a property map")
 		return
 	}
+	// the per-property work may live in a helper that the loop calls with the identifier just read
+	var helper *ssa.Function
+	var helperCall *ssa.Call
+	if len(AllLoops(loopFn)) == 0 {
+		helper = loopFn
+		loopFn = nil
+		for _, fn := range sortedFuncs(scope) {
+			if fn.Signature.Recv() == nil || len(AllLoops(fn)) != 1 {
+				continue
+			}
+			if pt, ok := fn.Params[0].Type().Underlying().(*types.Pointer); !ok || !types.Identical(pt.Elem(), cur.T) {
+				continue
+			}
+			lp := AllLoops(fn)[0]
+			for b := range lp.Blocks {
+				for _, ins := range b.Instrs {
+					if call, ok := ins.(*ssa.Call); ok && call.Call.StaticCallee() == helper && len(call.Call.Args) > 0 && call.Call.Args[0] == ssa.Value(fn.Params[0]) {
+						loopFn, helperCall = fn, call
+					}
+				}
+			}
+		}
+		if loopFn == nil {
+			c.Unk("R9.5", qname(helper), p.Pos(helper.Pos()), "the function taking the property map has no loop and is not called from a loop of the sequential reader")
+			return
+		}
+	}
 	cons := qname(loopFn)
 	loops := AllLoops(loopFn)
 	if len(loops) != 1 {
@@ -652,7 +622,18 @@ func checkPropertyLoop(p *Prog, c *Check, cur *Cursor, scope map[*ssa.Function]b
 	pr := NewProver(p, loopFn)
 	// the identifier variable: argument of the G call that dominates the map lookup
 	var lookup *ssa.Lookup
-	for b := range l.Blocks {
+	lookupBlocks := func(f func(b *ssa.BasicBlock)) {
+		if helper != nil {
+			for _, b := range helper.Blocks {
+				f(b)
+			}
+			return
+		}
+		for b := range l.Blocks {
+			f(b)
+		}
+	}
+	lookupBlocks(func(b *ssa.BasicBlock) {
 		for _, ins := range b.Instrs {
 			if lk, ok := ins.(*ssa.Lookup); ok {
 				if _, isMap := lk.X.Type().Underlying().(*types.Map); isMap {
@@ -660,15 +641,65 @@ func checkPropertyLoop(p *Prog, c *Check, cur *Cursor, scope map[*ssa.Function]b
 				}
 			}
 		}
-	}
+	})
 	if lookup == nil {
 		c.Unk("R9.5", cons, p.Pos(loopFn.Pos()), "no map lookup in the property loop")
 		return
 	}
 	idLoad, _ := lookup.Index.(*ssa.UnOp)
 	var idCell ssa.Value
+	var idParam *ssa.Parameter // helper mode: the parameter that carries the identifier
 	if idLoad != nil {
 		idCell = idLoad.X
+	}
+	if helper != nil {
+		idCell = nil
+		if q, ok := lookup.Index.(*ssa.Parameter); ok {
+			for k, hp := range helper.Params {
+				if hp == q && k < len(helperCall.Call.Args) {
+					if ld, ok := helperCall.Call.Args[k].(*ssa.UnOp); ok && ld.Op == token.MUL {
+						idCell, idParam = ld.X, q
+					}
+				}
+			}
+		}
+	}
+	// helper mode: the helper reads a value or records a non-nil error on every path
+	helperConsumes := false
+	if helper != nil {
+		hpr := NewProver(p, helper)
+		hdone := map[*ssa.BasicBlock]bool{}
+		for _, b := range helper.Blocks {
+			for _, ins := range b.Instrs {
+				switch x := ins.(type) {
+				case *ssa.Call:
+					callees, _ := p.CG().Callees(x)
+					if len(callees) == 1 && callees[0] == cur.G && len(x.Call.Args) == 2 {
+						hdone[b] = true
+					}
+				case *ssa.Store:
+					if _, ok := cur.isField(x.Addr, cur.E); ok && hpr.NonNil(x.Val, b, 0) {
+						hdone[b] = true
+					}
+				}
+			}
+		}
+		helperConsumes = true
+		seenB := map[*ssa.BasicBlock]bool{}
+		var dfs func(b *ssa.BasicBlock)
+		dfs = func(b *ssa.BasicBlock) {
+			if seenB[b] || hdone[b] {
+				return
+			}
+			seenB[b] = true
+			if _, isRet := terminator(b).(*ssa.Return); isRet {
+				helperConsumes = false
+			}
+			for _, s := range b.Succs {
+				dfs(s)
+			}
+		}
+		dfs(helper.Blocks[0])
 	}
 	// blocks that consume a value or set an error
 	done := map[*ssa.BasicBlock]bool{}
@@ -683,6 +714,9 @@ func checkPropertyLoop(p *Prog, c *Check, cur *Cursor, scope map[*ssa.Function]b
 						idRead = x
 						continue
 					}
+					done[b] = true
+				}
+				if helper != nil && x == helperCall && helperConsumes {
 					done[b] = true
 				}
 			case *ssa.Store:
@@ -712,7 +746,11 @@ func checkPropertyLoop(p *Prog, c *Check, cur *Cursor, scope map[*ssa.Function]b
 	switch {
 	case idRead == nil:
 		c.Unk("R9.5", cons, p.Pos(loopFn.Pos()), "cannot find the read of the property identifier")
-	case !idRead.Block().Dominates(lookup.Block()):
+	case helper != nil && idParam == nil:
+		c.Unk("R9.5", cons, posOf(p, helperCall), "cannot relate the identifier read in the loop to the one the per-property helper dispatches on")
+	case helper != nil && !idRead.Block().Dominates(helperCall.Block()):
+		c.Bad("R9.5", cons, posOf(p, helperCall), "the identifier used for dispatch is not read in the same iteration")
+	case helper == nil && !idRead.Block().Dominates(lookup.Block()):
 		c.Bad("R9.5", cons, posOf(p, lookup), "the identifier used for dispatch is not read in the same iteration")
 	case !acyclicWithout(l, done):
 		c.Bad("R9.5", cons, posOf(p, l.Header.Instrs[0]), "an iteration can complete after reading an identifier without reading its value or recording an error: an undefined identifier is skipped instead of rejected")
@@ -739,7 +777,20 @@ func checkPropertyLoop(p *Prog, c *Check, cur *Cursor, scope map[*ssa.Function]b
 			}
 		}
 	}
-	if idCell != nil {
+	if helper != nil && idParam != nil {
+		for _, b := range helper.Blocks {
+			for _, ins := range b.Instrs {
+				bo, ok := ins.(*ssa.BinOp)
+				if !ok || bo.Op != token.EQL || stripConvs(bo.X) != ssa.Value(idParam) {
+					continue
+				}
+				if k, isC := constInt(bo.Y); isC {
+					accepted = append(accepted, acc{k, posOf(p, ins), qname(helper) + " case"})
+				}
+			}
+		}
+	}
+	if idCell != nil && helper == nil {
 		for b := range l.Blocks {
 			for _, ins := range b.Instrs {
 				bo, ok := ins.(*ssa.BinOp)
@@ -802,4 +853,117 @@ func (p *Prog) byteDecoderIsIdentity(d *ssa.Function) bool {
 		}
 	}
 	return n > 0
+}
+
+// stickyReturnOK: the return yields the sequential reader's sticky error as it is at this point: a load of the
+// error field of one of the reader objects `bases` with no write to it since; the nil constant where a dominating
+// test of that (still current) field took the nil edge; a tiny accessor returning the field; or the result of an
+// mq function that is handed the reader and itself returns, on every path, the sticky error of that parameter.
+func stickyReturnOK(p *Prog, cur *Cursor, pr *Prover, bases []ssa.Value, b *ssa.BasicBlock, ret *ssa.Return, depth int) bool {
+	r := ret.Results[0]
+	isBase := func(v ssa.Value) bool {
+		for _, x := range bases {
+			if v == x {
+				return true
+			}
+		}
+		return false
+	}
+	isErrLoad := func(v ssa.Value) bool {
+		ld, ok := v.(*ssa.UnOp)
+		if !ok || ld.Op != token.MUL {
+			return false
+		}
+		base, ok := cur.isField(ld.X, cur.E)
+		if !ok || !isBase(base) {
+			return false
+		}
+		// current: no write to E between the load and the return
+		if pr.verAt != nil {
+			return pr.loadVer[ld] == pr.verAt(ret, classOf(ld.X))
+		}
+		return true
+	}
+	if isErrLoad(r) {
+		return true
+	}
+	if call, ok := r.(*ssa.Call); ok {
+		sc := call.Call.StaticCallee()
+		// tiny accessor returning the field
+		if sc != nil && len(sc.Blocks) == 1 && len(call.Call.Args) == 1 {
+			if rr, ok := terminator(sc.Blocks[0]).(*ssa.Return); ok && len(rr.Results) == 1 {
+				if ld, ok := rr.Results[0].(*ssa.UnOp); ok && ld.Op == token.MUL {
+					if base, ok := cur.isField(ld.X, cur.E); ok && base == ssa.Value(sc.Params[0]) && isBase(call.Call.Args[0]) {
+						return true
+					}
+				}
+			}
+		}
+		// a stage of the decoder that is handed the reader and returns its sticky error; nothing may touch the
+		// reader between that call and this return (the call's result is returned directly)
+		if sc != nil && sc.Pkg != nil && sc.Pkg.Pkg == p.Pkg && depth < 3 && call.Block() == b {
+			for k, a := range call.Call.Args {
+				if !isBase(a) || k >= len(sc.Params) {
+					continue
+				}
+				spr := NewProver(p, sc)
+				all, n := true, 0
+				for _, sb := range sc.Blocks {
+					sret, ok := terminator(sb).(*ssa.Return)
+					if !ok || len(sret.Results) != 1 {
+						continue
+					}
+					n++
+					if !stickyReturnOK(p, cur, spr, []ssa.Value{sc.Params[k]}, sb, sret, depth+1) {
+						all = false
+					}
+				}
+				if all && n > 0 {
+					// no reader use after the call in this block
+					after := false
+					for _, ins := range b.Instrs {
+						if ins == ssa.Instruction(call) {
+							after = true
+							continue
+						}
+						if after {
+							if c2, isCall := ins.(*ssa.Call); isCall {
+								for _, a2 := range c2.Call.Args {
+									if isBase(a2) {
+										return false
+									}
+								}
+							}
+						}
+					}
+					return true
+				}
+			}
+		}
+	}
+	if isNilConst(r) {
+		// `return nil` where the sticky error is known to be nil: a dominating test of the error, as it still
+		// is at the return (no write to it in between), took the nil edge
+		for _, dc := range domConds(b) {
+			bo, ok := dc.cond.(*ssa.BinOp)
+			if !ok || (bo.Op != token.EQL && bo.Op != token.NEQ) {
+				continue
+			}
+			var other ssa.Value
+			if isNilConst(bo.Y) {
+				other = bo.X
+			} else if isNilConst(bo.X) {
+				other = bo.Y
+			} else {
+				continue
+			}
+			if !isErrLoad(other) {
+				continue
+			}
+			if (bo.Op == token.EQL) == dc.truth {
+				return true
+			}
+		}
+	}
+	return false
 }
